@@ -4,7 +4,7 @@
    they did before this call's t-th access; it may differ at every access, so every schedule of every number of
    threads is covered), and every write of this call is Good, so it is itself admissible interference for the others.
    The eviction tables H, C of a call are created by the call and never shared (translated: fresh_counts_per_call). *)
-From Connectome Require Import Values Attrs VM Edges EdgesGen Store MiscGen Evaluator L2 HashSound SpecEq EqFacts C01Inst C04Main Total RaiseDir C01Raise Examples.
+From Connectome Require Import Values Attrs VM Edges EdgesGen Store GraphGen MemGen Evaluator L2 HashSound SpecEq EqFacts C01Inst C04Main Total RaiseDir C01Raise Examples.
 From Connectome Require ColStore ColumnsGen Columns ColumnsFacts EqFacts.
 Local Open Scope list_scope.
 
